@@ -59,6 +59,11 @@ type Exchange struct {
 	// holdHeader: a slow connection: the first WriteHeader call blocks until the channel is closed
 	holdHeader chan struct{}
 	HeldHeader bool // a WriteHeader call is (or was) held
+	// holdAfterBody: the Write call that completes the declared Content-Length does not return until the channel
+	// is closed: the response has reached the client in full, the goroutine that wrote it has not been scheduled
+	// again yet (a real client may react to the response, e.g. poll again, before the writer gets to run)
+	holdAfterBody chan struct{}
+	HeldBody      bool
 	// SurplusBytes: body bytes the handler wrote beyond the Content-Length it had declared (dropped, as net/http does)
 	SurplusBytes int
 }
@@ -143,6 +148,14 @@ func (r recorder) Write(p []byte) (int, error) {
 	}
 	e.Body = append(e.Body, accepted...)
 	e.cond.Broadcast()
+	if ch := e.holdAfterBody; ch != nil && !e.HeldBody && !e.Aborted && clErr == nil {
+		if cl := e.Header.Get("Content-Length"); cl == fmt.Sprint(len(e.Body)) {
+			e.HeldBody = true
+			e.mu.Unlock()
+			<-ch
+			e.mu.Lock()
+		}
+	}
 	if e.Aborted {
 		return 0, net.ErrClosed
 	}
@@ -295,6 +308,7 @@ type ReqSpec struct {
 	BodyChunk     int
 	RemoteAddr    string
 	HoldHeader    chan struct{} // slow connection: the first status line blocks until this channel is closed
+	HoldAfterBody chan struct{} // the Write completing the response returns only when this channel is closed
 	// BodyErrIsEncoding: the body read failure injected with FailBodyAt is the body's own (malformed chunked
 	// encoding): the connection is still there, net/http does not cancel the request context
 	BodyErrIsEncoding bool
@@ -328,7 +342,7 @@ func Do(h http.Handler, spec ReqSpec) *Exchange {
 	if req.RemoteAddr == "" {
 		req.RemoteAddr = "10.9.9.9:5555"
 	}
-	e := &Exchange{Method: spec.Method, URL: u.String(), hdr: http.Header{}, cancel: cancel, StartedAt: time.Now(), holdHeader: spec.HoldHeader, earlyData: spec.EarlyData, failHijackedWrites: spec.FailHijackedWrites}
+	e := &Exchange{Method: spec.Method, URL: u.String(), hdr: http.Header{}, cancel: cancel, StartedAt: time.Now(), holdHeader: spec.HoldHeader, holdAfterBody: spec.HoldAfterBody, earlyData: spec.EarlyData, failHijackedWrites: spec.FailHijackedWrites}
 	e.cond = sync.NewCond(&e.mu)
 	for k, v := range spec.PreHeader {
 		e.hdr[k] = append([]string(nil), v...)
